@@ -12,7 +12,10 @@
 //   keys/values/prefixes are hex, "-" = empty; limit is hex.
 //   <entries> := <key>=<value>,...  sorted by key | ()
 // observed: one token per op, separated by spaces; an op that panics yields "panic" and ends the case;
-//           an op returning an error yields "err".
+//           an op returning an error yields "err".  After the last op (when no op panicked) one more token
+//           T:ok | T:bad:<n> : whether every node's Descendants counter equals the number of nodes below it
+//           (clearPrefixAtNode reads `nodesRemoved == 0`, computed from these counters, as "nothing changed";
+//           the model replaces that test by a changed-flag, which is only faithful while the counters are exact).
 package inmemory
 
 import (
@@ -24,7 +27,31 @@ import (
 
 	vu "github.com/ChainSafe/gossamer/internal/verifutil"
 	"github.com/ChainSafe/gossamer/pkg/trie"
+	"github.com/ChainSafe/gossamer/pkg/trie/node"
 )
+
+// c02Desc returns the number of nodes of the subtree and how many Descendants counters are wrong in it
+func c02Desc(n *node.Node) (cnt uint32, bad int) {
+	if n == nil {
+		return 0, 0
+	}
+	if n.Kind() == node.Leaf {
+		if n.Descendants != 0 {
+			bad++
+		}
+		return 1, bad
+	}
+	var d uint32
+	for _, c := range n.Children {
+		cc, b := c02Desc(c)
+		d += cc
+		bad += b
+	}
+	if n.Descendants != d {
+		bad++
+	}
+	return d + 1, bad
+}
 
 func c02Entries(tr *InMemoryTrie) string {
 	m := tr.Entries()
@@ -125,15 +152,21 @@ func c02Run(in string) string {
 		tr.SetVersion(trie.V0)
 	}
 	out := make([]string, 0, len(f))
+	stopped := false
 	for _, op := range f[2:] {
 		tok, stop := c02Op(tr, op)
 		out = append(out, tok)
 		if stop {
+			stopped = true
 			break
 		}
 	}
-	if len(out) == 0 {
-		return "()"
+	if !stopped {
+		if _, bad := c02Desc(tr.root); bad == 0 {
+			out = append(out, "T:ok")
+		} else {
+			out = append(out, "T:bad:"+vu.X(uint64(bad)))
+		}
 	}
 	return strings.Join(out, " ")
 }
@@ -349,6 +382,78 @@ func c02GenSeq(r *vu.RNG, alph []byte, nops int) string {
 	return b.String()
 }
 
+// churn: a small key set is stored, then a limited clear under a fixed prefix and the re-insertion of the
+// whole set alternate a few times (the shape that makes deleteNodesLimit merge a branch with its last,
+// partly deleted child), and finally the prefixes above the cleared one are listed and cleared.
+func c02GenChurn(r *vu.RNG) string {
+	alph := [][]byte{{0x00, 0x01, 0x10, 0x11}, {0x01, 0x10, 0x11}, {0x01, 0x11, 0x1f, 0xf1}}[r.Intn(3)]
+	g := &c02Gen{r: r, keys: map[string]bool{}, alph: alph}
+	var b strings.Builder
+	fmt.Fprintf(&b, "seq %d", r.Intn(2))
+	nk := 4 + r.Intn(5)
+	var set [][]byte
+	base := make([]byte, 1+r.Intn(2))
+	for i := range base {
+		base[i] = alph[r.Intn(len(alph))]
+	}
+	for i := 0; i < nk; i++ {
+		k := append([]byte{}, base...)
+		if r.Chance(1, 4) {
+			k = k[:r.Intn(len(k)+1)]
+		}
+		for j := r.Intn(3); j >= 0; j-- {
+			k = append(k, alph[r.Intn(len(alph))])
+		}
+		set = append(set, k)
+	}
+	put := func() {
+		for _, k := range set {
+			g.keys[string(k)] = true
+			fmt.Fprintf(&b, " P:%s:01", vu.Hex(k))
+		}
+	}
+	put()
+	// the prefix: a stored key cut somewhere after the base; not ending in a zero nibble, not risky
+	var p []byte
+	lim := 1
+	for try := 0; try < 20; try++ {
+		k := set[r.Intn(len(set))]
+		lb := len(base)
+		if lb > len(k) {
+			lb = len(k)
+		}
+		p = append([]byte{}, k[:lb+r.Intn(len(k)-lb+1)]...)
+		lim = 1 + r.Intn(3)
+		if len(p) > 0 && p[len(p)-1]&0x0f != 0 && !g.risky('L', p, lim) {
+			break
+		}
+	}
+	rounds := 2 + r.Intn(3)
+	for i := 0; i < rounds; i++ {
+		if g.risky('L', p, lim) {
+			break
+		}
+		g.clear(p, lim)
+		fmt.Fprintf(&b, " L:%s:%s", vu.Hex(p), vu.X(uint64(lim)))
+		if i+1 < rounds {
+			put()
+		}
+	}
+	for n := len(p); n >= 1; n-- {
+		q := p[:n]
+		if g.risky('K', q, 0) {
+			continue
+		}
+		fmt.Fprintf(&b, " K:%s", vu.Hex(q))
+		if n < len(p) || r.Chance(1, 2) {
+			g.clear(q, -1)
+			fmt.Fprintf(&b, " C:%s K:%s", vu.Hex(q), vu.Hex(q))
+		}
+	}
+	b.WriteString(" E")
+	return b.String()
+}
+
 func c02Generate(r *vu.RNG, n int, emit func(string)) {
 	// boundary corpus: the prefix-with-zero-low-nibble witness and friends
 	for _, s := range []string{
@@ -360,6 +465,14 @@ func c02Generate(r *vu.RNG, n int, emit func(string)) {
 		"seq 0 P:ab12:01 P:ac34:02 G:ab D:ab G:ab12",
 		"seq 0 P:123456:01 P:123c56:02 G:1c56 D:1c56 G:123c56",
 		"seq 0 P:1245:01 P:1255:02 K:13 K:1345",
+		// Descendants counters after limited clears (fixes/C02-limit-descendants): three rounds make the
+		// counter of the branch 0x01.. wrap, ClearPrefix(0x01) then deleted nothing
+		"seq 0 P:10:01 P:0110:01 P:010100:01 P:01011000:01 P:01011010:01 L:0101:2 P:010100:01 P:01011000:01 L:0101:2 P:010100:01 P:01011000:01 L:0101:2 K:01 C:01 K:01 E",
+		"seq 1 P:1ff010:01 P:00:01 P:0110:01 P:01f0:01 L:-:2 E",
+		// the trimmed prefix matches more keys but a small limit stops before them (inside the theorem)
+		"seq 0 P:1001:01 P:1002:02 P:1f02:03 L:10:1 L:10:0 E",
+		"seq 0 P:1001:01 P:1002:02 P:1f02:03 L:10:2",
+		"seq 0 P:1001:01 P:1002:02 P:1f02:03 L:10:3",
 	} {
 		emit(s)
 	}
@@ -402,6 +515,10 @@ func c02Generate(r *vu.RNG, n int, emit func(string)) {
 		}
 	}
 	for i := 0; i < n; i++ {
+		if r.Chance(1, 8) {
+			emit(c02GenChurn(r.Fork()))
+			continue
+		}
 		alph := c02Alphabet
 		if r.Chance(1, 5) { // a two-letter alphabet forces deep shared prefixes
 			alph = [][]byte{{0x00, 0x01}, {0x10, 0x1f}, {0x00, 0x10}, {0xf0, 0xff}}[r.Intn(4)]
